@@ -94,6 +94,8 @@ pub enum Op {
     SetNamedItem(usize, usize),
     RemoveNamedItem(usize, String),
     SplitText(usize, usize),
+    /// Element.normalize()
+    Normalize(usize),
     SetNodeValue(usize, String),
     // character data (C16 / C15)
     AppendData(usize, String),
@@ -136,6 +138,7 @@ impl Op {
             Op::SetNamedItem(e, a) => format!("sni{f}{e}{f}{a}"),
             Op::RemoveNamedItem(e, n) => format!("rni{f}{e}{f}{n}"),
             Op::SplitText(t, k) => format!("spl{f}{t}{f}{k}"),
+            Op::Normalize(e) => format!("nrm{f}{e}"),
             Op::SetNodeValue(n, v) => format!("snv{f}{n}{f}{v}"),
             Op::AppendData(n, s) => format!("apd{f}{n}{f}{s}"),
             Op::InsertData(n, o, s) => format!("ind{f}{n}{f}{o}{f}{s}"),
@@ -169,6 +172,7 @@ impl Op {
             "sni" => Op::SetNamedItem(n(1)?, n(2)?),
             "rni" => Op::RemoveNamedItem(n(1)?, st(2)?),
             "spl" => Op::SplitText(n(1)?, n(2)?),
+            "nrm" => Op::Normalize(n(1)?),
             "snv" => Op::SetNodeValue(n(1)?, st(2)?),
             "apd" => Op::AppendData(n(1)?, st(2)?),
             "ind" => Op::InsertData(n(1)?, n(2)?, st(3)?),
@@ -200,6 +204,7 @@ impl Op {
             Op::SetNamedItem(..) => "set_named_item",
             Op::RemoveNamedItem(..) => "remove_named_item",
             Op::SplitText(..) => "split_text",
+            Op::Normalize(..) => "normalize",
             Op::SetNodeValue(..) => "set_node_value",
             Op::AppendData(..) => "append_data",
             Op::InsertData(..) => "insert_data",
@@ -638,6 +643,45 @@ impl MDom {
                         e
                     }
                 }
+            }
+            Op::Normalize(e) => {
+                if self.kind(*e) != Kind::Element {
+                    return Expect { ok: vec![], fail: vec![], any_error: true, text: None };
+                }
+                // in the whole subtree: empty Text nodes leave, of adjacent Text nodes the first takes the data of the
+                // others, which leave (DOM Level 1: "only markup separates Text nodes"); CDATA sections are markup
+                fn norm(d: &mut MDom, e: usize) {
+                    let kids = d.nodes[e].children.clone();
+                    let mut keep: Vec<usize> = vec![];
+                    for c in kids {
+                        match d.kind(c) {
+                            Kind::Text => {
+                                if d.nodes[c].value.is_empty() {
+                                    d.nodes[c].parent = None;
+                                    continue;
+                                }
+                                if let Some(&p) = keep.last() {
+                                    if d.kind(p) == Kind::Text {
+                                        let v = d.nodes[c].value.clone();
+                                        d.nodes[p].value.push_str(&v);
+                                        d.nodes[c].parent = None;
+                                        continue;
+                                    }
+                                }
+                                keep.push(c);
+                            }
+                            Kind::Element => {
+                                norm(d, c);
+                                keep.push(c);
+                            }
+                            _ => keep.push(c),
+                        }
+                    }
+                    d.nodes[e].children = keep;
+                }
+                let mut d = self.clone();
+                norm(&mut d, *e);
+                Expect::ok1(d, None)
             }
             Op::SetNodeValue(n, v) => match self.kind(*n) {
                 Kind::Text | Kind::Comment | Kind::CData | Kind::PI => self.set_data(*n, v),
